@@ -40,3 +40,54 @@ pub fn failed_open() -> i32 {
     println!("open after restoring the wal: {:?}", r2.as_ref().map(|_| "ok").map_err(|e| format!("{e:?}").chars().take(100).collect::<String>()));
     0
 }
+
+/// commits made after a repaired torn commit-log tail: do they survive the next crash?
+pub fn repair_then_commit() -> i32 {
+    let rt = tokio::runtime::Builder::new_multi_thread().worker_threads(2).enable_all().build().unwrap();
+    let _g = rt.enter();
+    let d = tempfile::tempdir().unwrap();
+    let mk = |p: &std::path::Path| {
+        let mut o = Options::new();
+        o.path = p.to_path_buf();
+        o.flush_on_close = false;
+        o
+    };
+    {
+        let t = TreeBuilder::with_options(mk(d.path())).build().unwrap();
+        for i in 0..3 {
+            let mut tx = t.begin().unwrap();
+            tx.set(format!("a{i}").as_bytes(), b"v").unwrap();
+            rt.block_on(tx.commit()).unwrap();
+        }
+        rt.block_on(t.close()).unwrap();
+    }
+    let wal = std::fs::read_dir(d.path().join("wal")).unwrap().flatten().map(|e| e.path()).find(|p| p.extension().map(|x| x == "wal").unwrap_or(false)).unwrap();
+    let orig = std::fs::read(&wal).unwrap();
+    // torn tail: cut the last record in the middle
+    std::fs::write(&wal, &orig[..orig.len() - 5]).unwrap();
+    let t = TreeBuilder::with_options(mk(d.path())).build().unwrap();
+    let mut tx = t.begin().unwrap();
+    tx.set(b"after-repair", b"v").unwrap();
+    println!("commit after repair: {:?}", rt.block_on(tx.commit()).map_err(|e| format!("{e:?}")));
+    // crash: copy the directory while the store is open
+    let img = tempfile::tempdir().unwrap();
+    fn copy_dir(src: &std::path::Path, dst: &std::path::Path) {
+        std::fs::create_dir_all(dst).unwrap();
+        for e in std::fs::read_dir(src).unwrap().flatten() {
+            let p = e.path();
+            if p.is_dir() {
+                copy_dir(&p, &dst.join(e.file_name()));
+            } else if e.file_name() != "LOCK" {
+                let _ = std::fs::copy(&p, dst.join(e.file_name()));
+            }
+        }
+    }
+    copy_dir(d.path(), img.path());
+    let t2 = TreeBuilder::with_options(mk(img.path())).build().unwrap();
+    let tx = t2.begin().unwrap();
+    for k in ["a0", "a1", "a2", "after-repair"] {
+        println!("{k}: {:?}", tx.get(k.as_bytes()).map(|v| v.is_some()));
+    }
+    drop(t);
+    0
+}
